@@ -104,6 +104,13 @@ def run(rep: common.Report, tier: str, seed: int, replay=None) -> int:
                 sol = tdgl.solve(dev, opts, applied_vector_potential=A, terminal_currents=cur, disorder_epsilon=eps)
                 nsteps = sol.data_range[1] + 1
                 loaded = tdgl.Solution.from_hdf5(sol.path)
+            except RuntimeError as e:
+                if "Screening calculation failed to converge" in str(e):
+                    # an allowed outcome of the run itself (some of the rarely-set screening parameters do not converge)
+                    rep.coverage["runs_that_failed_to_converge"] = rep.coverage.get("runs_that_failed_to_converge", 0) + 1
+                    continue
+                rep.violation(f"saving / loading a solution raised {type(e).__name__}: {e}"[:200], case)
+                continue
             except Exception as e:  # noqa: BLE001
                 rep.violation(f"saving / loading a solution raised {type(e).__name__}: {e}"[:200], case)
                 continue
